@@ -1,13 +1,22 @@
-"""Shared builders for harnesses."""
-from symx.bstr import buffer_type, lit, tracing
+"""Shared builders and environment stubs for the expect-core harnesses."""
+import re as _real_re
+
+from symx.bstr import buffer_type, lit, tracing, _isb
 from pexpect.spawnbase import SpawnBase
+from pexpect.exceptions import EOF, TIMEOUT
+import pexpect.expect as _E
 
 
-def state_spawn(P, cut, W=None, kind='t', cls=SpawnBase):
+class Skip(Exception):
+    """Raised by a stub when the symbolic script violates the stub's contract
+    (= the input is outside the assumed environment); the harness returns SKIP."""
+
+
+def state_spawn(P, cut, W=None, kind='t', cls=SpawnBase, **kw):
     """A spawn object whose pending text is P and whose search buffer is P[cut:]
     (any suffix of the pending text: representation invariant INV0), both stream
     positions at the end, as every expect-family call leaves them."""
-    sp = cls(encoding='utf-8' if kind == 't' else None, searchwindowsize=W)
+    sp = cls(encoding='utf-8' if kind == 't' else None, searchwindowsize=W, **kw)
     bt = buffer_type(kind)
     sp.buffer_type = bt
     sp._before = bt()
@@ -19,3 +28,199 @@ def state_spawn(P, cut, W=None, kind='t', cls=SpawnBase):
 
 def empty(kind='t'):
     return lit('' if kind == 't' else b'')
+
+
+def pending(sp):
+    return sp._before.getvalue()
+
+
+def inv0(sp, P):
+    """INV0 after a step: pending text is P, the search buffer is a suffix of it, and
+    both stream positions are at the end."""
+    B = sp._buffer.getvalue()
+    nb = len(B)
+    nP = len(P)
+    if not (sp._before.getvalue() == P):
+        return False
+    if nb > nP:
+        return False
+    if not (P[nP - nb:] == B):
+        return False
+    if sp._before.tell() != nP:
+        return False
+    if sp._buffer.tell() != nb:
+        return False
+    return True
+
+
+class AbsSearcher:
+    """Any searcher obeying the searcher contract: a miss, or a span inside the window.
+    The outcome is chosen by symbolic script variables."""
+    eof_index = -1
+    timeout_index = -1
+
+    def __init__(self, hit, a, b, lookback=0, index=0):
+        self.hit, self.a, self.b, self.index = hit, a, b, index
+        if lookback:
+            self.longest_string = lookback
+        self.calls = []
+
+    def search(self, window, freshlen, searchwindowsize=None):
+        self.calls.append((window, freshlen, searchwindowsize))
+        if not self.hit:
+            return -1
+        if not (0 <= self.a <= self.b <= len(window)):
+            raise Skip()
+        self.start, self.end = self.a, self.b
+        self.match = 'MATCH-OBJECT'
+        return self.index
+
+    def __str__(self):
+        return 'AbsSearcher'
+
+
+class FakeMatch:
+    def __init__(self, s, e, pat):
+        self._s, self._e, self.re = s, e, pat
+
+    def start(self, g=0):
+        return self._s
+
+    def end(self, g=0):
+        return self._e
+
+    def span(self, g=0):
+        return (self._s, self._e)
+
+
+class AbsPat:
+    """A compiled-pattern look-alike whose single search() result is scripted:
+    None, or any span with pos <= start <= end <= len(buffer) (CPython's re contract)."""
+
+    def __init__(self, hit, a, b, name='abs'):
+        self.hit, self.a, self.b = hit, a, b
+        self.pattern = name
+        self.flags = 0
+        self.calls = []
+
+    def search(self, buf, pos=0, endpos=None):
+        self.calls.append((buf, pos))
+        if not self.hit:
+            return None
+        if not (pos <= self.a <= self.b <= len(buf)):
+            raise Skip()
+        return FakeMatch(self.a, self.b, self)
+
+
+class LitPat:
+    """Escape-free literal pattern: search == find (leftmost at or after pos)."""
+
+    def __init__(self, s):
+        self.s = s
+        self.pattern = s
+        self.flags = 0
+
+    def search(self, buf, pos=0, endpos=None):
+        n = buf.find(self.s, pos)
+        if n < 0:
+            return None
+        return FakeMatch(n, n + len(self.s), self)
+
+
+class EndPat:
+    r"""The zero-width end anchor \Z: matches (len, len) from any pos <= len."""
+    pattern = r'\Z'
+    flags = 0
+
+    def search(self, buf, pos=0, endpos=None):
+        n = len(buf)
+        if pos > n:
+            return None
+        return FakeMatch(n, n, self)
+
+
+class DotN:
+    """'.{n}' with DOTALL: the first n characters at pos."""
+
+    def __init__(self, n):
+        self.n = n
+        self.pattern = '.{%d}' % n
+        self.flags = _real_re.DOTALL
+
+    def search(self, buf, pos=0, endpos=None):
+        if len(buf) - pos < self.n or self.n < 0:
+            return None
+        return FakeMatch(pos, pos + self.n, self)
+
+
+class Clock:
+    """Integer-tick virtual clock (replaces the `time` module inside pexpect modules)."""
+
+    def __init__(self, t0=0):
+        self.now = t0
+        self.sleeps = 0
+
+    def time(self):
+        return self.now
+
+    def sleep(self, d):
+        if d is not None and d > 0:
+            self.now = self.now + d
+        self.sleeps += 1
+
+
+class patched:
+    """with patched(module, name=value, ...): temporarily replace module globals."""
+
+    def __init__(self, mod, **kw):
+        self.mod, self.kw, self.old = mod, kw, {}
+
+    def __enter__(self):
+        for k, v in self.kw.items():
+            self.old[k] = getattr(self.mod, k)
+            setattr(self.mod, k, v)
+        return self
+
+    def __exit__(self, *a):
+        for k, v in self.old.items():
+            setattr(self.mod, k, v)
+        return False
+
+
+class ScriptedSpawn(SpawnBase):
+    """SpawnBase whose transport (the documented extension point read_nonblocking) plays a
+    script: a list of ('data', text) | ('eof',) | ('timeout',) | ('err', exc)."""
+
+    def __init__(self, script=(), kind='t', **kw):
+        SpawnBase.__init__(self, encoding='utf-8' if kind == 't' else None, **kw)
+        bt = buffer_type(kind)
+        self.buffer_type = bt
+        self._before = bt()
+        self._buffer = bt()
+        self.script = list(script)
+        self.reads = 0
+        self.delayafterread = None
+        self.read_args = []
+
+    def read_nonblocking(self, size=1, timeout=None):
+        self.reads += 1
+        self.read_args.append((size, timeout))
+        if not self.script:
+            if self.flag_eof:
+                raise EOF('scripted EOF (sticky)')
+            raise TIMEOUT('script exhausted')
+        ev = self.script.pop(0)
+        if ev[0] == 'data':
+            return ev[1]
+        if ev[0] == 'eof':
+            self.flag_eof = True
+            raise EOF('scripted EOF')
+        if ev[0] == 'timeout':
+            raise TIMEOUT('scripted TIMEOUT')
+        raise ev[1]
+
+
+def frozen_time():
+    """Patch pexpect.expect's clock with one that never advances (so only the script
+    decides when a call ends)."""
+    return patched(_E, time=Clock(0))
